@@ -278,6 +278,14 @@ class Abstractor:
                 self.avail.append((c, v))
         if d.chance(1, 12):
             fields.append({"name": "nosuch", "val": None, "cap": None})
+        if type(node).__name__ == "Uni" and d.chance(1, 2):
+            # attributes that exist without being dataclass fields (a plain property, a ClassVar)
+            an = d.pick(["alias", "KIND"])
+            av = getattr(node, an)
+            c = self.cap(1, 2)
+            fields.append({"name": an, "val": self.value(av, depth) if d.chance(1, 2) else None, "cap": c})
+            if c:
+                self.avail.append((c, av))
         if fields and d.chance(1, 4):
             # the same field listed twice: every listed spec has to hold (and every capture is made)
             again = d.pick([f for f in fields if f["name"] != "nosuch"] or fields)
